@@ -124,6 +124,55 @@ func lazies() []lz {
 			}
 			return j - 1
 		}, 1, 0},
+		// Take must not ask its source again once n elements are out: the source's HasNext may have to search
+		{"FlatMap.Take", func(s fp.Iterator[int]) fp.Iterator[int] {
+			return s.FlatMap(func(x int) fp.Iterator[int] { return iterator.FromSeq(ufSlice("k", x)) }).Take(takeN)
+		}, func(j int) int {
+			if j > takeN {
+				j = takeN
+			}
+			if j == 0 {
+				return 0
+			}
+			return countUntil(j, func(i int) int { return len(ufSlice("k", sv(i))) }, nil)
+		}, 1, 0},
+		{"DropWhile.Take", func(s fp.Iterator[int]) fp.Iterator[int] { return s.DropWhile(p).Take(takeN) }, func(j int) int {
+			if j > takeN {
+				j = takeN
+			}
+			if j == 0 {
+				return 0
+			}
+			d := 0
+			for d < horizon && p(sv(d+1)) {
+				d++
+			}
+			if d+j > horizon {
+				return -1
+			}
+			return d + j
+		}, 1, 0},
+		{"FilterMap.Take", func(s fp.Iterator[int]) fp.Iterator[int] {
+			return iterator.FilterMap(s, func(x int) fp.Option[int] {
+				if p(x) {
+					return fp.Some(x)
+				}
+				return fp.None[int]()
+			}).Take(takeN)
+		}, func(j int) int {
+			if j > takeN {
+				j = takeN
+			}
+			if j == 0 {
+				return 0
+			}
+			return countUntil(j, func(i int) int {
+				if p(sv(i)) {
+					return 1
+				}
+				return 0
+			}, nil)
+		}, 2, 0},
 		{"Pipeline.Filter.Map.TakeWhile", func(s fp.Iterator[int]) fp.Iterator[int] {
 			return s.Filter(p).Map(ufF("f")).TakeWhile(ufP("q"))
 		}, func(j int) int {
@@ -155,7 +204,10 @@ func lazies() []lz {
 	}
 }
 
+var takeN int
+
 func lzfind(name string) lz {
+	takeN = zz.IntIn("takeN", 0, 2)
 	for _, l := range lazies() {
 		if l.name == name {
 			return l
@@ -200,6 +252,9 @@ func VH_c12_lazy_ZipWithIndex()   { lazyCheck(lzfind("ZipWithIndex")) }
 func VH_c12_lazy_Zip()            { lazyCheck(lzfind("Zip")) }
 func VH_c12_lazy_Scan()           { lazyCheck(lzfind("Scan")) }
 func VH_c12_lazy_Pipeline()       { lazyCheck(lzfind("Pipeline.Filter.Map.TakeWhile")) }
+func VH_c12_lazy_FlatMapTake()    { lazyCheck(lzfind("FlatMap.Take")) }
+func VH_c12_lazy_DropWhileTake()  { lazyCheck(lzfind("DropWhile.Take")) }
+func VH_c12_lazy_FilterMapTake()  { lazyCheck(lzfind("FilterMap.Take")) }
 
 func VH_c12_lazy_duplicate_span_partition() {
 	k := zz.Choice("demand", 3)
